@@ -78,11 +78,11 @@ def _write_one(prop, r, src, cx, hit, tried, error):
         doc['failing_input'] = r['native_case']; doc['native_failures'] = r.get('native_failures'); doc['source'] = 'native search'
     elif hit is not None:
         doc['failing_input'], doc['native_failures'] = hit; doc['source'] = 'solver model'
-    elif _has_native(prop) or r.get('meta', {}).get('kind') == 'frame':
+    elif _has_native(prop) or r.get('meta', {}).get('kind') == 'frame' or r.get('meta', {}).get('history'):
         try:
             # a failed frame obligation (write to state that outlives the call) is replayed by the history checker of C20: call
             # sequences on shared objects compared with fresh-state executions
-            np_ = 'C20' if r.get('meta', {}).get('kind') == 'frame' else prop
+            np_ = 'C20' if (r.get('meta', {}).get('kind') == 'frame' or r.get('meta', {}).get('history')) else prop
             key_ = prop if np_ == prop else prop + '/frame'
             if key_ not in _CORPUS:          # one native corpus run per check run
                 corpus = native(dict(cmd='corpus', prop=np_, seed=getattr(cx, 'seed', 0), n=(60 if cx.tier == 'quick' else 400) if np_ == prop else 12))
